@@ -80,3 +80,104 @@ def stale_alias_rule(repo: Repo, prop: str, rule_id: str, floor: int = 2) -> Rul
             else:
                 r.ok(fn, f"stores {owner.name}.{attr}, which no method rebinds", key=key)
     return r
+
+
+def _stores_param(callee: FuncInfo, idx: int) -> bool:
+    """Does the method keep (not copy) its idx-th parameter in self state: self.x = p, self.x[i] = p, self.x.append(p)?"""
+    if idx >= len(callee.params):
+        return False
+    p = callee.params[idx]
+    selfname = callee.params[0]
+    for n in walk_shallow(callee.node):
+        if isinstance(n, ast.Assign) and isinstance(n.value, ast.Name) and n.value.id == p:
+            for t in n.targets:
+                base = t
+                while isinstance(base, (ast.Subscript, ast.Attribute)):
+                    base = base.value
+                if isinstance(base, ast.Name) and base.id == selfname and not isinstance(t, ast.Name):
+                    return True
+        if isinstance(n, ast.Call) and isinstance(n.func, ast.Attribute) and n.func.attr in ("append", "add", "insert") and any(isinstance(a, ast.Name) and a.id == p for a in n.args):
+            base = n.func.value
+            while isinstance(base, (ast.Subscript, ast.Attribute)):
+                base = base.value
+            if isinstance(base, ast.Name) and base.id == selfname:
+                return True
+    return False
+
+
+def shared_parts_rule(repo: Repo, prop: str, rule_id: str, floor: int = 3) -> RuleRun:
+    """One freshly created transformable object (an edge-data record, a face, ...) must go into ONE slot: if the same object is
+    attached to several slots of an entity (inside a loop, or by repeated calls), the entity's `parts` list contains it
+    several times and every transformation is applied to it that many times."""
+    r = RuleRun(prop, rule_id, floor=floor, what="a freshly created element is attached to one slot only (no object shared between the slots an entity transforms part by part)")
+    elem = repo.cls("base.element.ElementBase")
+    for fn in sorted(repo.all_functions(), key=lambda f: f.qualname):
+        env = None
+        # names bound exactly once, outside loops, to a fresh element
+        fresh: Dict[str, ast.AST] = {}
+        counts: Dict[str, int] = {}
+        for n in ast.walk(fn.node):
+            if isinstance(n, (ast.Assign, ast.AnnAssign, ast.AugAssign, ast.For, ast.comprehension, ast.NamedExpr, ast.With)):
+                tg = []
+                if isinstance(n, ast.Assign):
+                    tg = n.targets
+                elif isinstance(n, (ast.AnnAssign, ast.AugAssign, ast.NamedExpr)):
+                    tg = [n.target]
+                elif isinstance(n, (ast.For, ast.comprehension)):
+                    tg = [n.target]
+                for t in tg:
+                    for x in ast.walk(t):
+                        if isinstance(x, ast.Name):
+                            counts[x.id] = counts.get(x.id, 0) + 1
+        for st in fn.node.body:
+            if isinstance(st, ast.Assign) and len(st.targets) == 1 and isinstance(st.targets[0], ast.Name) and isinstance(st.value, ast.Call) and counts.get(st.targets[0].id) == 1:
+                if env is None:
+                    env = TypeEnv(repo, fn)
+                cls = st_cls(env.type_of(st.value))
+                if cls is not None and repo.is_subclass(cls, elem):
+                    fresh[st.targets[0].id] = st
+        if not fresh:
+            continue
+        uses: Dict[str, List[Tuple[ast.Call, bool, FuncInfo]]] = {}
+
+        def scan(node, in_loop):
+            for child in ast.iter_child_nodes(node):
+                if isinstance(child, (ast.FunctionDef, ast.Lambda, ast.ClassDef)):
+                    continue
+                loop = in_loop or isinstance(child, (ast.For, ast.While, ast.ListComp, ast.GeneratorExp, ast.SetComp, ast.DictComp))
+                if isinstance(child, ast.Call):
+                    callees, _ = env.resolve_call(child)
+                    for i, a in enumerate(child.args):
+                        if isinstance(a, ast.Name) and a.id in fresh:
+                            for c in callees:
+                                off = 1 if (c.cls is not None and not c.is_staticmethod and isinstance(child.func, ast.Attribute)) else 0
+                                if c.name == "__init__":
+                                    off = 1
+                                if _stores_param(c, i + off):
+                                    uses.setdefault(a.id, []).append((child, in_loop, c))
+                scan(child, loop)
+
+        scan(fn.node, False)
+        nth: Dict[str, int] = {}
+        for name, st in sorted(fresh.items(), key=lambda kv: kv[1].lineno):
+            us = uses.get(name, [])
+            if not us:
+                continue
+            shared = len(us) > 1 or any(lp for _, lp, _ in us)
+            cls = st_cls(env.type_of(st.value))
+            r.check(
+                not shared,
+                fn,
+                f"the {cls.name} created once is attached once ({us[0][2].qualname})",
+                f"{fn.qualname} creates one {cls.name} ('{ast.unparse(st)[:70]}') and attaches that same object {'in a loop' if any(lp for _, lp, _ in us) else str(len(us)) + ' times'} "
+                f"through {us[0][2].qualname}: the slots share it, the entity's parts list contains it several times, and rotate/mirror/scale is applied to it once per slot "
+                "(e.g. the axis of an Angle edge is rotated four times)",
+                us[0][0],
+                key=_nth_key(nth, f"fresh:{cls.name}->{us[0][2].name}"),
+            )
+    return r
+
+
+def _nth_key(seen: Dict[str, int], base: str) -> str:
+    seen[base] = seen.get(base, 0) + 1
+    return base if seen[base] == 1 else f"{base}#{seen[base]}"
